@@ -13,7 +13,7 @@ HARNESS = 'c06_multi'
 COQ_IMPORTS = 'From VRP Require Import Base.Tac Model.Core Spec.Feasible Model.Eval Model.Objectives Model.ObjectivesX Model.MultiSearch.'
 MODEL_TARGETS = ['theories/Model/MultiSearch.vo']
 SHARD = 25
-SIZES = {'quick': 300, 'thorough': 6000, 'search': 3000}
+SIZES = {'quick': 260, 'thorough': 6000, 'search': 3000}
 RULE = ('cases: random worlds (3-6 locations, metric / non-metric asymmetric matrices, open / closed tours, finite / unbounded '
         'shift ends), tours of 0-5 activities with mixed static and shipment demand (a third with tight windows), capacity '
         'sometimes moved to the boundary of the largest load; candidate = Multi job of 2 sub-jobs (pickup, delivery) or 3 sub-jobs '
